@@ -157,27 +157,36 @@ class Pre:
         return len(self.buf) > 0
 
 
-def acceptor_case(seed, nops, maxinc):
+def acceptor_case(seed, nops, maxinc, scripted=None):
+    """clients arriving, completing (authenticating and saying Hello) and leaving around max_incomplete_connections; `scripted`
+    (a list of ("arrive",) / ("complete", k) / ("gone", k)) replaces the random choice of operations"""
     rng = random.Random(seed)
     d = bus.Daemon(limits={"max_incomplete_connections": maxinc, "auth_timeout": 120000})
     ops, impl = [], []
     conns, done = {}, set()
     nxt = 1
     try:
-        for _ in range(nops):
+        for step in range(len(scripted) if scripted is not None else nops):
             live = [k for k in conns if k not in done]
             x = rng.random()
             acc = [k for k in live if conns[k].accepted()]
-            if not live or (x < 0.5 and len(live) < maxinc + 4):
+            if scripted is not None:
+                what = scripted[step][0]
+                k = scripted[step][1] if len(scripted[step]) > 1 else None
+            elif not live or (x < 0.5 and len(live) < maxinc + 4):
+                what, k = "arrive", None
+            elif x < 0.72 and acc:
+                what, k = "complete", rng.choice(acc)
+            else:
+                what, k = "gone", rng.choice(live)
+            if what == "arrive":
                 k = nxt; nxt += 1
                 conns[k] = Pre(d.path); ops.append("acc arrive %d" % k)
-            elif x < 0.72 and acc:
-                k = rng.choice(acc)
+            elif what == "complete":
                 hello = bus.method_call(1, bus.BUS, bus.BUS_PATH, bus.BUS, "Hello").marshal()
                 conns[k].s.sendall(b"AUTH EXTERNAL 30\r\nBEGIN\r\n" + hello)
                 done.add(k); ops.append("acc complete %d" % k)
             else:
-                k = rng.choice(live)
                 conns[k].s.close(); del conns[k]; ops.append("acc gone %d" % k)
             time.sleep(0.03)
             for k, c in conns.items():
@@ -255,14 +264,9 @@ def expiry_case(maxinc=3, timeout_ms=2000, flood=False):
         d.stop()
 
 
-def run_acceptor(ctx):
-    n = 10 if ctx.quick() else 120
-    jobs = [(ctx.seed * 1000003 + 613 * j, 28 if ctx.quick() else 60, 2 + j % 3) for j in range(n)]
-    with ProcessPoolExecutor(10) as ex:
-        res = list(ex.map(_acc_job, jobs))
-    good = [r for r in res if "infra" not in r]
-    if len(good) < len(res) * 0.8:
-        raise InfraError("acceptor harness failed: %s" % [r for r in res if "infra" in r][:2])
+def judge_acceptor(ctx, good):
+    """each history of arrivals / completions / departures against the model (Model/Bus/Accept.lean) and against the property:
+    never more than the limit served, nobody left waiting while there is room"""
     ok = True
     full_seen = 0
     for r in good:
@@ -288,6 +292,33 @@ def run_acceptor(ctx):
                 ok = False
                 ctx.violate("incomplete-connection bookkeeping: daemon serves %s / leaves waiting %s, model %s / %s after '%s'" % (inc, back, minc, mback, r["ops"][i]),
                             dict(replay, step=i), False); break
+    return ok
+
+
+def replay_acceptor(rp):
+    """re-runs a recorded history of arrivals / completions / departures on the current tree"""
+    scripted = []
+    for o in rp["ops"]:
+        w = o.split()
+        scripted.append(("arrive",) if w[1] == "arrive" else (w[1], int(w[2])))
+    r = acceptor_case(1, 0, rp["max_incomplete_connections"], scripted=scripted)
+    bad = not r["alive"]
+    for (inc, back), op in zip(r["impl"], r["ops"]):
+        print("replay: after '%s' served %s waiting %s" % (op, inc, back))
+        if len(inc) > r["max"] or (back and len(inc) < r["max"]):
+            bad = True
+    return 1 if bad else 0
+
+
+def run_acceptor(ctx):
+    n = 10 if ctx.quick() else 120
+    jobs = [(ctx.seed * 1000003 + 613 * j, 28 if ctx.quick() else 60, 1 + j % 4) for j in range(n)]
+    with ProcessPoolExecutor(10) as ex:
+        res = list(ex.map(_acc_job, jobs))
+    good = [r for r in res if "infra" not in r]
+    if len(good) < len(res) * 0.8:
+        raise InfraError("acceptor harness failed: %s" % [r for r in res if "infra" in r][:2])
+    ok = judge_acceptor(ctx, good)
     ctx.oblige("correspondence K:acceptor (%d histories of clients arriving, completing and leaving around max_incomplete_connections)" % len(good),
                "correspondence", ok)
     ex = expiry_case()
@@ -304,7 +335,7 @@ def run_acceptor(ctx):
     ctx.oblige("scenario: the same while two clients flood the bus (%d signals during the scenario): timers still fire" % fx.get("flood_signals_sent", 0),
                "correspondence", fok)
     ctx.coverage.setdefault("distribution", {})["expiry_under_flood"] = fx
-    ctx.coverage.setdefault("distribution", {})["acceptor"] = {"histories": len(good), "steps_with_clients_waiting": full_seen, "expiry": ex}
+    ctx.coverage.setdefault("distribution", {})["acceptor"] = {"histories": len(good), "steps_with_clients_waiting": sum(1 for r in good for (_i, b) in r["impl"] if b), "expiry": ex}
 
 
 SPIN_KINDS = ["reader-half-closed", "reader-half-closed-mid-message", "half-closed-before-auth", "writer-half-closed-with-backlog",
@@ -501,7 +532,7 @@ def replay(path):
         ok = all(fx["first_accepted"]) and not fx["late_accepted_while_full"] and all(fx["first_closed_after_timeout"]) and fx["late_accepted_after_timeout"] and fx["alive"]
         print("replay C10 (%s): %s" % (rp["kind"], fx)); rc = 0 if ok else 1
     elif rp.get("kind") == "acceptor":
-        print("replay: acceptor history %s (re-run: bin/check C10)" % rp["ops"]); rc = 1
+        rc = replay_acceptor(rp)
     else:
         print("replay: %s" % data.get("what")); rc = 1
     if rc:
